@@ -3,6 +3,7 @@ package fw
 import (
 	"go/token"
 	"go/types"
+	"strings"
 
 	"golang.org/x/tools/go/ssa"
 )
@@ -24,6 +25,87 @@ type FlowSpec struct {
 	// derives from what is stored to T.f anywhere in the family (field-sensitive,
 	// object-insensitive).
 	Family []*ssa.Function
+	// NoInter disables following calls to repository functions into their bodies.
+	NoInter bool
+	// Visit (optional) is told about every call the walk passes through (Through calls
+	// and entered helpers), with the frame in which the call occurs.
+	Visit func(c ssa.CallInstruction, fr *Frame)
+}
+
+// Frame is one level of inter-procedural context: the walk entered Callee at Site.
+type Frame struct {
+	Site   *ssa.Call
+	Callee *ssa.Function
+	Parent *Frame
+}
+
+func (fr *Frame) depth() int {
+	n := 0
+	for f := fr; f != nil; f = f.Parent {
+		n++
+	}
+	return n
+}
+
+func (fr *Frame) has(fn *ssa.Function) bool {
+	for f := fr; f != nil; f = f.Parent {
+		if f.Callee == fn {
+			return true
+		}
+	}
+	return false
+}
+
+// ArgOf maps a parameter of the frame's callee to the argument at the call site.
+func (fr *Frame) ArgOf(p *ssa.Parameter) (ssa.Value, bool) {
+	if fr == nil || p.Parent() != fr.Callee {
+		return nil, false
+	}
+	for i, q := range fr.Callee.Params {
+		if q == p && i < len(fr.Site.Call.Args) {
+			return fr.Site.Call.Args[i], true
+		}
+	}
+	return nil, false
+}
+
+// Followable: a statically resolved call to a repository function with a body that the
+// provenance walk may enter (helpers extracted from the analysed function are transparent).
+func Followable(c *ssa.Call, fr *Frame) *ssa.Function {
+	if c.Call.IsInvoke() {
+		return nil
+	}
+	fn := c.Call.StaticCallee()
+	if fn == nil || len(fn.Blocks) == 0 || fn.Pkg == nil || fn.Pkg.Pkg == nil {
+		return nil
+	}
+	if !strings.HasPrefix(fn.Pkg.Pkg.Path(), ModPath) {
+		return nil
+	}
+	if fr.has(fn) || fr.depth() >= 4 {
+		return nil
+	}
+	return fn
+}
+
+// helperReturns lists, for result #idx of fn, the returned values; returns that hand back
+// a constant zero value together with a non-nil error (the failure exits) are skipped.
+func helperReturns(fn *ssa.Function, idx int) []ssa.Value {
+	var out []ssa.Value
+	ei := ErrIndex(fn)
+	for _, r := range Returns(fn) {
+		if idx >= len(r.Results) {
+			continue
+		}
+		v := r.Results[idx]
+		if ei >= 0 && ei != idx && ei < len(r.Results) {
+			if _, isC := v.(*ssa.Const); isC && !isNilConst(r.Results[ei]) {
+				continue
+			}
+		}
+		out = append(out, v)
+	}
+	return out
 }
 
 // FamilyOf returns fn and all its (transitively) nested anonymous functions.
@@ -60,34 +142,75 @@ func StoresToField(family []*ssa.Function, st *types.Struct, idx int) []ssa.Valu
 
 // DerivesFrom reports whether v derives from a source under spec.
 func DerivesFrom(v ssa.Value, spec FlowSpec) bool {
-	return derives(v, spec, map[ssa.Value]bool{}, 0)
+	return derives(v, spec, map[seenKey]bool{}, 0, nil)
 }
 
-func derives(v ssa.Value, s FlowSpec, seen map[ssa.Value]bool, depth int) bool {
-	if v == nil || depth > 40 {
+// DerivesFromIn is DerivesFrom for a value that lives in the given frame.
+func DerivesFromIn(v ssa.Value, fr *Frame, spec FlowSpec) bool {
+	return derives(v, spec, map[seenKey]bool{}, 0, fr)
+}
+
+type seenKey struct {
+	v  ssa.Value
+	fr *Frame
+}
+
+func derives(v ssa.Value, s FlowSpec, seen map[seenKey]bool, depth int, fr *Frame) bool {
+	if v == nil || depth > 60 {
 		return false
 	}
 	if s.IsSource(v) {
 		return true
 	}
-	if seen[v] {
+	if seen[seenKey{v, fr}] {
 		return s.All // a cycle adds no new origin
 	}
-	seen[v] = true
+	seen[seenKey{v, fr}] = true
+	enter := func(call *ssa.Call, idx int) (bool, bool) {
+		if s.NoInter {
+			return false, false
+		}
+		callee := Followable(call, fr)
+		if callee == nil {
+			return false, false
+		}
+		vals := helperReturns(callee, idx)
+		if len(vals) == 0 {
+			return false, true
+		}
+		if s.Visit != nil {
+			s.Visit(call, fr)
+		}
+		nf := &Frame{Site: call, Callee: callee, Parent: fr}
+		if s.All {
+			for _, x := range vals {
+				if !derives(x, s, seen, depth+1, nf) {
+					return false, true
+				}
+			}
+			return true, true
+		}
+		for _, x := range vals {
+			if derives(x, s, seen, depth+1, nf) {
+				return true, true
+			}
+		}
+		return false, true
+	}
 	alts := func(vals []ssa.Value) bool {
 		if len(vals) == 0 {
 			return false
 		}
 		if s.All {
 			for _, x := range vals {
-				if !derives(x, s, seen, depth+1) {
+				if !derives(x, s, seen, depth+1, fr) {
 					return false
 				}
 			}
 			return true
 		}
 		for _, x := range vals {
-			if derives(x, s, seen, depth+1) {
+			if derives(x, s, seen, depth+1, fr) {
 				return true
 			}
 		}
@@ -97,21 +220,33 @@ func derives(v ssa.Value, s FlowSpec, seen map[ssa.Value]bool, depth int) bool {
 	case *ssa.Phi:
 		return alts(x.Edges)
 	case *ssa.Extract:
-		return derives(x.Tuple, s, seen, depth+1)
+		if call, ok := x.Tuple.(*ssa.Call); ok {
+			if s.Through == nil || s.Through(call) == nil {
+				if res, entered := enter(call, x.Index); entered {
+					return res
+				}
+			}
+		}
+		return derives(x.Tuple, s, seen, depth+1, fr)
+	case *ssa.Parameter:
+		if arg, ok := fr.ArgOf(x); ok {
+			return derives(arg, s, seen, depth+1, fr.Parent)
+		}
+		return false
 	case *ssa.ChangeInterface:
-		return derives(x.X, s, seen, depth+1)
+		return derives(x.X, s, seen, depth+1, fr)
 	case *ssa.ChangeType:
-		return derives(x.X, s, seen, depth+1)
+		return derives(x.X, s, seen, depth+1, fr)
 	case *ssa.Convert:
-		return derives(x.X, s, seen, depth+1)
+		return derives(x.X, s, seen, depth+1, fr)
 	case *ssa.MakeInterface:
-		return derives(x.X, s, seen, depth+1)
+		return derives(x.X, s, seen, depth+1, fr)
 	case *ssa.Slice:
-		return derives(x.X, s, seen, depth+1)
+		return derives(x.X, s, seen, depth+1, fr)
 	case *ssa.TypeAssert:
-		return derives(x.X, s, seen, depth+1)
+		return derives(x.X, s, seen, depth+1, fr)
 	case *ssa.Field:
-		return derives(x.X, s, seen, depth+1)
+		return derives(x.X, s, seen, depth+1, fr)
 	case *ssa.UnOp:
 		if x.Op == token.MUL {
 			// load: from a local alloc -> the values stored into it
@@ -135,17 +270,17 @@ func derives(v ssa.Value, s FlowSpec, seen map[ssa.Value]bool, depth int) bool {
 						}
 					}
 				}
-				return derives(a, s, seen, depth+1)
+				return derives(a, s, seen, depth+1, fr)
 			case *ssa.IndexAddr:
-				return derives(a, s, seen, depth+1)
+				return derives(a, s, seen, depth+1, fr)
 			}
-			return derives(x.X, s, seen, depth+1)
+			return derives(x.X, s, seen, depth+1, fr)
 		}
-		return derives(x.X, s, seen, depth+1)
+		return derives(x.X, s, seen, depth+1, fr)
 	case *ssa.FieldAddr:
-		return derives(x.X, s, seen, depth+1)
+		return derives(x.X, s, seen, depth+1, fr)
 	case *ssa.IndexAddr:
-		return derives(x.X, s, seen, depth+1)
+		return derives(x.X, s, seen, depth+1, fr)
 	case *ssa.Alloc:
 		// an array/struct literal: the values stored into it or into its elements
 		var vals []ssa.Value
@@ -174,7 +309,7 @@ func derives(v ssa.Value, s FlowSpec, seen map[ssa.Value]bool, depth int) bool {
 		}
 		// for aggregate literals one derived element suffices (the aggregate contains it)
 		for _, e := range vals {
-			if derives(e, s, seen, depth+1) {
+			if derives(e, s, seen, depth+1, fr) {
 				return true
 			}
 		}
@@ -190,9 +325,15 @@ func derives(v ssa.Value, s FlowSpec, seen map[ssa.Value]bool, depth int) bool {
 						vals = append(vals, args[i])
 					}
 				}
+				if s.Visit != nil {
+					s.Visit(x, fr)
+				}
 				// for "through" calls one derived argument suffices unless All
 				return alts(vals)
 			}
+		}
+		if res, entered := enter(x, 0); entered {
+			return res
 		}
 		return false
 	}
@@ -253,4 +394,181 @@ func FieldStores(fn *ssa.Function, structSuffix, field string) []*ssa.Store {
 	}
 	visit(fn)
 	return out
+}
+
+// ConstStringsIn resolves v (living in frame fr) to the set of constant strings it can be:
+// a constant; a phi of such; an element of an array / slice literal of constants (the
+// `for _, k := range []string{...}` idiom, also through a variadic or slice parameter of an
+// entered helper). ok is false when some alternative is not a constant.
+func ConstStringsIn(v ssa.Value, fr *Frame) (out []string, ok bool) {
+	return constStrings(v, fr, 0)
+}
+
+func constStrings(v ssa.Value, fr *Frame, depth int) ([]string, bool) {
+	if depth > 12 || v == nil {
+		return nil, false
+	}
+	v = Unwrap(v)
+	if s, ok := ConstString(v); ok {
+		return []string{s}, true
+	}
+	switch x := v.(type) {
+	case *ssa.Parameter:
+		if arg, ok := fr.ArgOf(x); ok {
+			return constStrings(arg, fr.Parent, depth+1)
+		}
+	case *ssa.Phi:
+		var out []string
+		for _, e := range x.Edges {
+			if e == ssa.Value(x) {
+				continue
+			}
+			r, ok := constStrings(e, fr, depth+1)
+			if !ok {
+				return nil, false
+			}
+			out = append(out, r...)
+		}
+		return out, len(out) > 0
+	case *ssa.UnOp:
+		if ia, ok := x.X.(*ssa.IndexAddr); ok {
+			return constElems(ia.X, fr, depth+1)
+		}
+		if al, ok := x.X.(*ssa.Alloc); ok {
+			var out []string
+			for _, ref := range *al.Referrers() {
+				if st, ok := ref.(*ssa.Store); ok && st.Addr == ssa.Value(al) {
+					r, ok := constStrings(st.Val, fr, depth+1)
+					if !ok {
+						return nil, false
+					}
+					out = append(out, r...)
+				}
+			}
+			return out, len(out) > 0
+		}
+	case *ssa.Index:
+		return constElems(x.X, fr, depth+1)
+	case *ssa.Extract:
+		// range over a string-keyed/valued collection: next(iter) #2 is not resolved
+		return nil, false
+	}
+	return nil, false
+}
+
+// constElems: the constant elements of the collection value x (array, slice).
+func constElems(x ssa.Value, fr *Frame, depth int) ([]string, bool) {
+	if depth > 12 {
+		return nil, false
+	}
+	switch c := x.(type) {
+	case *ssa.Slice:
+		return constElems(c.X, fr, depth+1)
+	case *ssa.Parameter:
+		if arg, ok := fr.ArgOf(c); ok {
+			return constElems(arg, fr.Parent, depth+1)
+		}
+	case *ssa.UnOp:
+		// load of a whole array from an alloc
+		return constElems(c.X, fr, depth+1)
+	case *ssa.Alloc:
+		var out []string
+		for _, ref := range *c.Referrers() {
+			switch r := ref.(type) {
+			case *ssa.IndexAddr:
+				for _, r2 := range *r.Referrers() {
+					if st, ok := r2.(*ssa.Store); ok && st.Addr == ssa.Value(r) {
+						s, ok := constStrings(st.Val, fr, depth+1)
+						if !ok {
+							return nil, false
+						}
+						out = append(out, s...)
+					}
+				}
+			case *ssa.Store:
+				if r.Addr == ssa.Value(c) {
+					// whole-array store of a constant aggregate is not representable: give up
+					if _, isC := r.Val.(*ssa.Const); !isC {
+						return nil, false
+					}
+				}
+			}
+		}
+		return out, len(out) > 0
+	case *ssa.Phi:
+		var out []string
+		for _, e := range c.Edges {
+			r, ok := constElems(e, fr, depth+1)
+			if !ok {
+				return nil, false
+			}
+			out = append(out, r...)
+		}
+		return out, len(out) > 0
+	}
+	return nil, false
+}
+
+// DeepCalls lists the calls matching `match` in fn, its closures and - transitively, up to
+// three levels - the repository functions it calls statically, each with the frame through
+// which it was reached, so that arguments can be resolved in context. `stopAt` (optional)
+// names callees that are not entered (they are analysed as anchors in their own right).
+type DeepCall struct {
+	Call ssa.CallInstruction
+	Fr   *Frame
+}
+
+func DeepCalls(fn *ssa.Function, match func(string) bool, stopAt func(*ssa.Function) bool) []DeepCall {
+	var out []DeepCall
+	var visit func(f *ssa.Function, fr *Frame)
+	visit = func(f *ssa.Function, fr *Frame) {
+		for _, call := range Calls(f) {
+			if match(CalleeName(call)) {
+				out = append(out, DeepCall{call, fr})
+				continue
+			}
+			if cc, ok := call.(*ssa.Call); ok {
+				if callee := Followable(cc, fr); callee != nil && (stopAt == nil || !stopAt(callee)) {
+					visit(callee, &Frame{Site: cc, Callee: callee, Parent: fr})
+				}
+			}
+		}
+		for _, a := range f.AnonFuncs {
+			visit(a, fr)
+		}
+	}
+	visit(fn, nil)
+	return out
+}
+
+// RegionOf returns fn, its closures and - transitively, up to three levels - the unexported
+// repository functions they call statically (helpers extracted from fn), each once.
+// stop (optional) names further callees that are not entered.
+func RegionOf(fn *ssa.Function, stop func(*ssa.Function) bool) []*ssa.Function {
+	seen := map[*ssa.Function]bool{}
+	var out []*ssa.Function
+	var visit func(f *ssa.Function, fr *Frame)
+	visit = func(f *ssa.Function, fr *Frame) {
+		if seen[f] {
+			return
+		}
+		seen[f] = true
+		out = append(out, f)
+		for _, call := range Calls(f) {
+			if cc, ok := call.(*ssa.Call); ok {
+				if callee := Followable(cc, fr); callee != nil && !exportedFunc(callee) && (stop == nil || !stop(callee)) {
+					visit(callee, &Frame{Site: cc, Callee: callee, Parent: fr})
+				}
+			}
+		}
+		for _, a := range f.AnonFuncs {
+			visit(a, fr)
+		}
+	}
+	visit(fn, nil)
+	return out
+}
+
+func exportedFunc(f *ssa.Function) bool {
+	return f.Object() != nil && f.Object().Exported()
 }
